@@ -59,6 +59,16 @@ class IterOnly(object):
     return iter(self.items)
 
 
+def mk_item(p, kind):
+  """a data item as int / bool / float / Fraction where that is exact (dyadic: float sums stay exact), else ExactQ"""
+  f = F(p)
+  if kind == "bool" and f in (0, 1): return bool(f)
+  if kind in ("int", "bool") and f.denominator == 1: return int(f)
+  if kind in ("float", "int", "bool") and _dyadic(f): return float(f)
+  if kind == "frac" and _dyadic(f): return Fraction(f)
+  return ExactQ(f)
+
+
 def mk_event(al, kind, items):
   """event data of the requested KIND holding `items`; returns (object, container to re-check afterwards or None)."""
   if kind == "tuple": return tuple(items), None
@@ -149,7 +159,7 @@ class MixRunner(object):
         return None
       if op[0] == "add":
         o = op[3] if len(op) > 3 else {}
-        items = [ExactQ(Fraction(a, b)) for a, b in op[2]]
+        items = [mk_item(x, o.get("ik", "q")) for x in op[2]]
         if "same" in o: data = self.objs[o["same"]]
         else:
           data, w = mk_event(self.al, o.get("ek", "list"), items)
@@ -186,7 +196,8 @@ class CtlRunner(object):
   def __init__(self, c):
     import audiolazy
     self.al = audiolazy
-    self.v0 = ExactQ(F(c["v0"]))
+    self.c = c
+    self.v0 = self.mkval(c["v0"])
     self.der, self.unext = None, False
     self.cs = None if c.get("helper") else audiolazy.ControlStream(self.v0)
     if c.get("helper") == "func": self.der = helper_signal(audiolazy, self.v0)
@@ -197,7 +208,7 @@ class CtlRunner(object):
   def step(self, op):
     """returns a value for a read, None otherwise; exceptions propagate to the caller"""
     if op[0] == "set":
-      self.cs.value = ExactQ(F(op[1])); return None
+      self.cs.value = self.mkval(op[1]); return None
     if op[0] == "derive":
       self.der, self.unext = derive(self.al, op[1], self.cs); return None
     if op[0] == "drop":
@@ -207,4 +218,64 @@ class CtlRunner(object):
       return None
     src = self.cs if self.der is None else self.der
     v = next(src) if (self.unext and self.der is not None) else src.take()
+    return self.obs(v)
+
+  def mkval(self, spec):
+    return ExactQ(F(spec))
+
+  def obs(self, v):
     return fr(to_frac(v))
+
+
+OBJ_KINDS = ["nan", "inf", "ninf", "list", "emptylist", "tuple0", "tuple", "stream", "func", "type", "cstream", "dict",
+             "object", "complex", "ellipsis", "notimpl", "stopiter", "stopinst", "bytes", "set"]
+
+
+def mk_obj(al, kind):
+  return {"nan": lambda: float("nan"), "inf": lambda: float("inf"), "ninf": lambda: -float("inf"),
+          "list": lambda: [1, 2], "emptylist": lambda: [], "tuple0": lambda: (), "tuple": lambda: (0, None),
+          "stream": lambda: al.Stream([1, 2, 3]), "func": lambda: (lambda: None), "type": lambda: int,
+          "cstream": lambda: al.ControlStream(None), "dict": lambda: {}, "object": lambda: object(),
+          "complex": lambda: complex(2, 0), "ellipsis": lambda: Ellipsis, "notimpl": lambda: NotImplemented,
+          "stopiter": lambda: StopIteration, "stopinst": lambda: StopIteration("x"), "bytes": lambda: b"",
+          "set": lambda: frozenset()}[kind]()
+
+
+class ValRunner(CtlRunner):
+  """ControlStream with values of any kind; a read is classified by identity against the case's object table, else by
+  type - independently of what was assigned.  StopIteration / exceptions are observations, reading goes on."""
+  def __init__(self, c):
+    import audiolazy
+    self.table = [mk_obj(audiolazy, k) for k in c.get("objs", [])]
+    CtlRunner.__init__(self, c)
+
+  def mkval(self, spec):
+    k = spec[0]
+    if k == "none": return None
+    if k == "obj": return self.table[spec[1]]
+    if k == "bool": return bool(spec[1])
+    if k == "int": return int(spec[1])
+    if k == "float": return float(F(spec[1]))
+    if k == "frac": return Fraction(F(spec[1]))
+    if k == "q": return ExactQ(F(spec[1]))
+    if k == "str": return str(spec[1])
+    raise ValueError(k)
+
+  def obs(self, v):
+    for i, o in enumerate(self.table):
+      if v is o: return ["obj", i]
+    if v is None: return ["none"]
+    if isinstance(v, bool): return ["bool", v]
+    if isinstance(v, int): return ["int", v]
+    if isinstance(v, float) and v == v and abs(v) != float("inf"): return ["float", fr(Fraction(v))]
+    if isinstance(v, (Fraction, ExactQ)): return ["q", fr(to_frac(v))]
+    if isinstance(v, str): return ["str", v]
+    return ["raise", "Unknown_" + type(v).__name__]
+
+  def step(self, op):
+    try:
+      return CtlRunner.step(self, op)
+    except StopIteration:
+      return ["stopped"]
+    except Exception as e:
+      return ["raise", type(e).__name__]
